@@ -294,14 +294,14 @@ macro_rules! txout {
         }
     };
 }
-//@begin prop=C01 tier=quick secp=1 mem=20 timeout=2400 desc="TxOut decode->encode exact per (asset,value,nonce) layout class, script <= 2 bytes, all truncations; classes cover every prefix byte"
+//@begin prop=C01 tier=quick secp=1 mem=12 timeout=2400 desc="TxOut decode->encode exact per (asset,value,nonce) layout class, script <= 2 bytes, all truncations; classes cover every prefix byte"
 txout!(txout_1_1_1, 1, 1, 1);
-txout!(txout_1_9_1, 1, 9, 1);
-txout!(txout_33_9_1, 33, 9, 1);
-txout!(txout_33_9_33, 33, 9, 33);
-txout!(txout_33_33_33, 33, 33, 33);
+txout!(txout_33_9_1, 33, 9, 1); //@ mem=20
+txout!(txout_33_33_33, 33, 33, 33); //@ mem=20
 //@end
 //@begin prop=C01 tier=thorough secp=1 mem=20 timeout=3000 desc="TxOut decode->encode exact, remaining layout classes"
+txout!(txout_1_9_1, 1, 9, 1);
+txout!(txout_33_9_33, 33, 9, 33);
 txout!(txout_1_33_1, 1, 33, 1);
 txout!(txout_33_1_1, 33, 1, 1);
 txout!(txout_33_33_1, 33, 33, 1);
@@ -370,11 +370,11 @@ macro_rules! txin {
         }
     };
 }
-//@begin prop=C01 tier=quick secp=1 mem=20 timeout=2400 desc="TxIn decode->encode exact per layout class (issuance flag, script length, amount/keys class), all truncations; flag bits vs 0xffffffff index; null-null issuance rejected" unsat_ok="all-ones index"
+//@begin prop=C01 tier=quick secp=1 mem=12 timeout=2400 desc="TxIn decode->encode exact per layout class (issuance flag, script length, amount/keys class), all truncations; flag bits vs 0xffffffff index; null-null issuance rejected" unsat_ok="all-ones index"
 txin!(txin_plain_s0, 0, 0, 1, 1, 46);
-txin!(txin_plain_s2, 0, 2, 1, 1, 48);
 //@end
 //@begin prop=C01 tier=thorough secp=1 mem=44 timeout=5400 desc="TxIn decode->encode exact, issuance layout classes (incl. null-null issuance rejected)" unsat_ok="all-ones index"
+txin!(txin_plain_s2, 0, 2, 1, 1, 48);
 txin!(txin_iss_9_1, 1, 1, 9, 1, 122);
 txin!(txin_iss_1_9, 1, 0, 1, 9, 120);
 txin!(txin_iss_1_1, 1, 0, 1, 1, 112);
@@ -440,7 +440,7 @@ iss!(issuance_33_1, 33, 1, 102);
 iss!(issuance_1_33, 1, 33, 102);
 //@end
 
-//@ prop=C01 tier=quick secp=1 mem=20 timeout=2400 desc="TxIn value side (no issuance): any txid, index < 2^30 with either pegin flag or the all-ones index with ANY txid, 2-byte script_sig: decode(encode(v)) == v fieldwise, decoder consumes exactly what was written"
+//@ prop=C01 tier=quick secp=1 mem=12 timeout=2400 desc="TxIn value side (no issuance): any txid, index < 2^30 with either pegin flag or the all-ones index with ANY txid, 2-byte script_sig: decode(encode(v)) == v fieldwise, decoder consumes exactly what was written"
 #[kani::proof]
 #[kani::unwind(48)]
 pub fn txin_value_plain() {
